@@ -49,6 +49,12 @@ def case_strategy(draw):
         if rich.bases(d["response"]) & rich.used_columns(dict(d, response=None)):
             d = dict(d, response="y")
             d["formula"] = rich.render(d)
+    if draw(st.integers(0, 3)) == 0:
+        free = [v for v in ("x", "z", "p") if v not in used_columns(d)]
+        if free and not d["formula"].rstrip().endswith("- 1"):
+            v = draw(st.sampled_from(free))
+            d = dict(d, removed=v)
+            d["formula"] = d["formula"] + f" + {v} - {v}"  # the variable is gone from the model again: it is not used
     used = used_columns(d)
     pattern = draw(st.sampled_from(["used_and_unused", "used_and_unused", "used_only", "unused_only", "none"]))
     holes = {}
@@ -69,7 +75,7 @@ def case_strategy(draw):
 
 
 def used_columns(d):
-    out = rich.used_columns(d)
+    out = rich.used_columns(d)  # computed from the design's structure; a term added and removed again is not in it
     text = d["formula"]
     if "`my var`" in text:
         out = set(out) | {"my var"}
